@@ -6,6 +6,8 @@ condition counts its evaluations; a check relying on a contract treats zero eval
 inconclusive.
 """
 
+import numbers
+
 import icontract
 
 COUNTS = {}
@@ -24,7 +26,7 @@ def batch_invariant(self):
     if not hasattr(self, "n_pad"):
         return True
     bs, nb, nd, n, pad = self.batch_size, self.n_batches, self.n_devices, self.n_states, self.n_pad
-    return (isinstance(bs, int) and isinstance(nb, int) and bs >= 1 and nb >= 1 and nd >= 1
+    return (isinstance(bs, numbers.Integral) and isinstance(nb, numbers.Integral) and bs >= 1 and nb >= 1 and nd >= 1
             and pad >= 0 and nd * nb * bs == n + pad and tuple(self.batch_shape) == (nd, nb, bs))
 
 
